@@ -1,5 +1,7 @@
 package values
 
+import "math"
+
 // A Range is the range of integers from b to e inclusive.
 type Range struct {
 	b, e int
@@ -15,7 +17,11 @@ func (r Range) Len() int {
 	if r.e < r.b {
 		return 0
 	}
-	return r.e + 1 - r.b
+	if n := r.e - r.b + 1; n > 0 {
+		return n
+	}
+	// the difference does not fit an int: (-9223372036854775808..9223372036854775807)
+	return math.MaxInt
 }
 
 // Index is in the iteration interface
